@@ -21,6 +21,7 @@ theorem verdict :
 #print axioms apply_refines_spec_partial
 #print axioms apply_error_class
 #print axioms op_agrees
+#print axioms apply_agrees_spec_nosplice_partial
 #print axioms Hv.Patch.applyOps_agrees
 #print axioms Hv.Patch.applyOps_error_class_conv
 #print axioms Hv.Patch.noSplice_single
